@@ -47,4 +47,14 @@ CLAIMS["C16"] = {
     "technique": "symbolic normal forms of field getters vs. an embedded format specification + constant evaluation of code tables + dtype-width inference (AST)",
 }
 
+CLAIMS["C17"] = {
+    "text": "Decides by role analysis that the five .fai columns (NAME, LENGTH, OFFSET, LINEBASES, LINEWIDTH) are given the same roles by the index reader, the FastaIdx field order, "
+            "every constructor call, the index builder and every consumer (contig lengths come from LENGTH; the fast interval path looks rows up in label order), and - as symbolic normal "
+            "forms over the role symbols - that whole-contig and interval reads use the byte layout the format defines (base i at OFFSET + (i // LINEBASES)*LINEWIDTH + i % LINEBASES; line "
+            "terminators deleted at LINEWIDTH*(j+1)-1-(A % LINEBASES), one per crossed break) and that the builder computes OFFSET/LINEBASES/LINEWIDTH/chunk size from line starts and ends, "
+            "with later chunks shifted by cumulative byte sizes in the OFFSET column only. These are role and formula agreements visible in the code for every file at once.",
+    "note": _NOTE + "Embedded specification: samtools faidx column semantics. Assumes LF line ends for interval reads (one terminator byte per break); CRLF and files without final newline are not decided.",
+    "technique": "role/dataflow agreement of table columns + symbolic normal forms of byte arithmetic vs. the format's layout formula (AST)",
+}
+
 NOT_APPLICABLE = {}
